@@ -219,7 +219,7 @@ def rollWoD (fuel : Nat) (addLine pool points threshold : Int) (isGE : Bool) (mo
     some (some ({ value := succ, allRoll := allRoll, rounds := addTimes,
                   text := "成功" ++ toString succ ++ "/" ++ toString allRoll ++ roundsText ++ detailText }, ws'))
 
-/-- one Double Cross round: returns (maxDice as the Go loop leaves it, addCount, shown dice) -/
+/-- one Double Cross round: returns (highest die, addCount, shown dice) -/
 def dcRound (addLine points : Int) (mode : Int) :
     Nat → Int → List Nat → Option ((Int × Int × List String) × List Nat)
   | 0, mx, ws => some ((mx, 0, []), ws)
@@ -229,10 +229,9 @@ def dcRound (addLine points : Int) (mode : Int) :
     | some (one, ws') =>
       let mx1 := if one > mx then one else mx
       let reachAdd := one ≥ addLine
-      let mx2 := if reachAdd then 10 else mx1
       let t := toString one
       let t := if reachAdd then "<" ++ t ++ ">" else t
-      match dcRound addLine points mode k mx2 ws' with
+      match dcRound addLine points mode k mx1 ws' with
       | none => none
       | some ((m, a, ts), ws'') => some ((m, (if reachAdd then 1 else 0) + a, t :: ts), ws'')
 
@@ -244,6 +243,7 @@ def dcLoop (addLine points : Int) (mode : Int) :
     match dcRound addLine points mode pool.toNat 0 ws with
     | none => none
     | some ((mx, a, ts), ws') =>
+      let mx := if a > 0 then 10 else mx
       let result := wrap64 (result + mx)
       let allRoll := wrap64 (allRoll + a)
       let (addTimes', pool') := if a > 0 then (addTimes + 1, a) else (addTimes, pool)
